@@ -113,13 +113,17 @@ func (a *ByteArr) read(idx *term.T) *term.T {
 }
 
 func readFlat(cells []*term.T, idx *term.T) *term.T {
+	lo, hi := idx.Range()
+	return readFlatIv(cells, idx, lo, hi)
+}
+
+func readFlatIv(cells []*term.T, idx *term.T, lo, hi uint64) *term.T {
 	if idx.IsConst() {
 		if idx.C < uint64(len(cells)) {
 			return cells[idx.C]
 		}
 		return zero8
 	}
-	lo, hi := idx.Range()
 	if hi >= uint64(len(cells)) {
 		hi = uint64(len(cells)) - 1
 	}
@@ -150,7 +154,14 @@ func readFlat(cells []*term.T, idx *term.T) *term.T {
 }
 
 func readLayer(l *layer, idx *term.T) *term.T {
-	// iterative walk collecting pending ite conditions
+	lo, hi := idx.Range()
+	return readLayerIv(l, idx, lo, hi)
+}
+
+// readLayerIv reads the byte at idx, known to lie in [lo, hi], from the version chain l.  The interval is narrowed
+// along the way: below a copy layer that was tested and missed, the index is known to be outside its extent, which
+// keeps older layers that cannot hold the byte out of the resulting term.
+func readLayerIv(l *layer, idx *term.T, lo, hi uint64) *term.T {
 	type pend struct {
 		c *term.T
 		v *term.T
@@ -164,8 +175,12 @@ func readLayer(l *layer, idx *term.T) *term.T {
 		case lUF:
 			base = term.UF(l.name, 8, idx)
 		case lFlat:
-			base = readFlat(l.cells, idx)
+			base = readFlatIv(l.cells, idx, lo, hi)
 		case lStore:
+			if l.idx.IsConst() && (l.idx.C < lo || l.idx.C > hi) {
+				l = l.prev
+				continue
+			}
 			c := term.Eq(idx, l.idx)
 			if c.IsTrue() {
 				base = l.val
@@ -174,10 +189,48 @@ func readLayer(l *layer, idx *term.T) *term.T {
 				continue
 			} else {
 				stack = append(stack, pend{c, l.val})
+				if l.idx.IsConst() {
+					if l.idx.C == lo && lo < hi {
+						lo++
+					} else if l.idx.C == hi && lo < hi {
+						hi--
+					}
+				}
 				l = l.prev
 				continue
 			}
 		case lCopy:
+			if l.dst.IsConst() && l.n.IsConst() && l.srcOff.IsConst() && l.dst.C+l.n.C >= l.dst.C {
+				d, e := l.dst.C, l.dst.C+l.n.C // extent [d, e)
+				if l.n.C == 0 || hi < d || lo >= e {
+					l = l.prev
+					continue
+				}
+				sidx := term.Add(term.Sub(idx, l.dst), l.srcOff)
+				if lo >= d && hi < e {
+					base = readLayerIv(l.src, sidx, lo-d+l.srcOff.C, hi-d+l.srcOff.C)
+					break
+				}
+				// partial overlap
+				il, ih := lo, hi
+				if il < d {
+					il = d
+				}
+				if ih >= e {
+					ih = e - 1
+				}
+				in := term.BAnd(term.Uge(idx, l.dst), term.Ult(idx, term.Const(64, e)))
+				v := readLayerIv(l.src, sidx, il-d+l.srcOff.C, ih-d+l.srcOff.C)
+				stack = append(stack, pend{in, v})
+				// what remains for the older layers
+				if lo >= d {
+					lo = e
+				} else if hi < e {
+					hi = d - 1
+				}
+				l = l.prev
+				continue
+			}
 			in := term.BAnd(term.Uge(idx, l.dst), term.Ult(term.Sub(idx, l.dst), l.n))
 			if in.IsFalse() {
 				l = l.prev
@@ -185,11 +238,7 @@ func readLayer(l *layer, idx *term.T) *term.T {
 			}
 			sidx := term.Add(term.Sub(idx, l.dst), l.srcOff)
 			if in.IsTrue() {
-				l = l.src
-				idx2 := sidx
-				// continue reading source with new index, but pending ites refer to the old idx: resolve recursively
-				v := readLayer(l, idx2)
-				base = v
+				base = readLayer(l.src, sidx)
 			} else {
 				v := readLayer(l.src, sidx)
 				stack = append(stack, pend{in, v})
